@@ -10,10 +10,16 @@
 //!   `doc <hex>` | `nofile`                                   -> `ok`
 //!   `cli <read> <parse> <compile> <vret> <noval> <stub> <create>` -> `exit=<code> wrote=<0|1>`
 //!
+//!   `vparts <b…>` (per-label verdicts of the current document's module)  -> `ret=<0|1>`
+//!
 //! S-level oracle (independent of the model; polarity of `validate` as asserted by the library's
 //! own tests: `true` = a trace failed):
 //!   O1  exit == 0 and a module was written  =>  parsed, compiled, and (--no-validate or passed)
 //!   O2  parsed, compiled, failed validation, no --no-validate  =>  exit == FAILURE, nothing written
+//!   O3  the real `validate` returns true iff some label of the module fails: checked on "anchor"
+//!       documents (functions from the library's own tests, the failing one first / in the middle /
+//!       last in label order, or none) and on "composed" documents (generated independent functions,
+//!       each one's verdict = the real `validate` on it alone); the real CLI runs on them as well
 
 use std::{
     fs,
@@ -392,6 +398,12 @@ struct Case {
     doc: Option<String>,
     flags: Vec<Flags>,
     class: &'static str,
+    /// per-label verdicts (in label order, `true` = that label fails validation) of the module the
+    /// document compiles to: the `vparts` request
+    vparts: Option<Vec<bool>>,
+    /// where `vparts` come from: "anchor" = fixed by construction from the library's own test
+    /// policies, "composed" = the real `validate` on each definition compiled alone
+    vsource: &'static str,
 }
 
 /// what one invocation produced: the library's in-process verdict (Err = it panicked) and the
@@ -509,9 +521,123 @@ fn record_case(rec: &mut Recorder, c: &Case, results: Vec<RunResult>) {
         Some(d) => rec.line(format!("doc {}", vh::hex(d.as_bytes())), "ok"),
         None => rec.line("nofile", "ok"),
     }
+    if let (Some(parts), Some(d)) = (&c.vparts, &c.doc) {
+        record_vparts(rec, d, parts, c.vsource);
+    }
     for (f, r) in c.flags.iter().zip(results) {
         record_one(rec, c.doc.as_deref(), *f, c.class, r);
     }
+}
+
+/// The real `validate` on a module whose labels are known to pass / fail individually.  S-level
+/// oracle (library contract, independent of the model): `validate` returns true exactly when some
+/// label fails — whether that label is the first, a middle or the last one in label order.
+fn record_vparts(rec: &mut Recorder, doc: &str, parts: &[bool], source: &str) {
+    let bits: Vec<String> = parts.iter().map(|b| (*b as u8).to_string()).collect();
+    let req = format!("vparts {}", bits.join(" ")).trim_end().to_string();
+    let real = match library_verdict(doc, false) {
+        Ok(v) if v.parse && v.compile => format!("ret={}", v.vret as u8),
+        Ok(v) => format!("ret=none(parse={} compile={})", v.parse, v.compile),
+        Err(msg) => format!("ret=panic({})", msg.replace(' ', "_")),
+    };
+    let want = parts.iter().any(|b| *b);
+    let pos = match parts.iter().position(|b| *b) {
+        None => "none".to_string(),
+        Some(0) if parts.len() > 1 && parts.iter().filter(|b| **b).count() == 1 => "first".to_string(),
+        Some(i) if i + 1 == parts.len() && parts.iter().filter(|b| **b).count() == 1 => "last".to_string(),
+        Some(_) if parts.iter().filter(|b| **b).count() == 1 => "middle".to_string(),
+        Some(_) => "several".to_string(),
+    };
+    rec.count(&format!("vparts:{source}:failing={pos}:labels={}", parts.len().min(5)));
+    if real != format!("ret={}", want as u8) {
+        rec.oracle_fail(format!(
+            "validate() gave `{real}` for a module with {} labels whose failing label(s): {pos} (per-label verdicts {}; source: {source}); the library contract is true iff some label fails",
+            parts.len(),
+            bits.join("")
+        ));
+    }
+    rec.nontrivial(fnv(&format!("vparts|{doc}")));
+    rec.line(req, real);
+}
+
+/// functions taken from the library's own `test_validate_return` (valid / invalid bodies), renamed
+const GOOD_BODIES: [&str; 3] = [
+    "    return 0\n",
+    "    if true {\n    }\n    return 6\n",
+    "    if true {\n        return 1\n    }\n    else {\n        return 0\n    }\n",
+];
+const BAD_BODIES: [&str; 2] = [
+    "    if false {\n        return 0\n    }\n",
+    "    let n = 0\n    if n > 0 {\n    }\n    else {\n        return 0\n    }\n",
+];
+
+/// a document of `n` independent functions whose names sort in the order given; `bad[i]` says
+/// whether the i-th label (in label = name order) fails validation
+fn anchor_doc(rng: &mut Rng, bad: &[bool]) -> String {
+    let mut fns = vec![];
+    for (i, b) in bad.iter().enumerate() {
+        // names sort by the leading letters: aa…, bb…, …
+        let c = (b'a' + i as u8) as char;
+        let body = if *b { *rng.pick(&BAD_BODIES) } else { *rng.pick(&GOOD_BODIES) };
+        fns.push(format!("function {c}{c}_fn{i}() int {{\n{body}}}\n"));
+    }
+    // textual order is independent of label order
+    rng.shuffle(&mut fns);
+    wrap_doc(rng, &fns.join("\n"))
+}
+
+fn anchor_cases(rng: &mut Rng, cases: &mut Vec<Case>) {
+    let base = Flags { read: true, noval: false, stub: false, create: true, explicit_out: false };
+    let mut pats: Vec<Vec<bool>> = vec![
+        vec![false],
+        vec![true],
+        vec![true, false],
+        vec![false, true],
+        vec![true, false, false],
+        vec![false, true, false],
+        vec![false, false, true],
+        vec![false, false, false],
+        vec![true, true, true],
+        vec![false, true, false, false, false],
+        vec![true, false, false, false],
+    ];
+    for _ in 0..6 {
+        let n = rng.range(2, 6) as usize;
+        let k = rng.below(n as u64) as usize;
+        pats.push((0..n).map(|i| i == k).collect());
+    }
+    for p in pats {
+        let doc = anchor_doc(rng, &p);
+        cases.push(Case { doc: Some(doc), flags: vec![base, Flags { noval: true, ..base }], class: "anchor", vparts: Some(p), vsource: "anchor" });
+    }
+}
+
+/// generated independent functions; each one's verdict is the real `validate` on it alone
+fn composed_case(rng: &mut Rng) -> Option<Case> {
+    let base = Flags { read: true, noval: false, stub: false, create: true, explicit_out: false };
+    let n = rng.range(2, 4) as usize;
+    let mut named: Vec<(String, String)> = vec![];
+    for i in 0..n {
+        let c = (b'a' + rng.below(26) as u8) as char;
+        let name = format!("{c}_g{i}");
+        let (p, force) = if rng.chance(1, 2) { (7, true) } else { (rng.range(2, 7), rng.chance(1, 3)) };
+        let src = DocGen { rng, var: (i as u32) * 100 }.function(&name, p, force);
+        named.push((name, src));
+    }
+    // label order = name order
+    named.sort_by(|a, b| a.0.cmp(&b.0));
+    let mut parts = vec![];
+    for (_, src) in &named {
+        let d = format!("---\npolicy-version: 2\n---\n\n```policy\n{src}\n```\n");
+        match library_verdict(&d, false) {
+            Ok(v) if v.parse && v.compile => parts.push(v.vret),
+            _ => return None,
+        }
+    }
+    let mut srcs: Vec<String> = named.into_iter().map(|x| x.1).collect();
+    rng.shuffle(&mut srcs);
+    let doc = wrap_doc(rng, &srcs.join("\n"));
+    Some(Case { doc: Some(doc), flags: vec![base], class: "composed", vparts: Some(parts), vsource: "composed" })
 }
 
 fn flag_set(rng: &mut Rng) -> Vec<Flags> {
@@ -551,9 +677,12 @@ fn main() {
                 "doc" if t.len() == 2 => {
                     let bytes = vh::unhex(t[1]).expect("replay: bad hex");
                     let doc = String::from_utf8(bytes).expect("replay: document is not UTF-8");
-                    cases.push(Case { doc: Some(doc), flags: vec![], class: "replay" });
+                    cases.push(Case { doc: Some(doc), flags: vec![], class: "replay", vparts: None, vsource: "replay" });
                 }
-                "nofile" => cases.push(Case { doc: None, flags: vec![], class: "replay" }),
+                "nofile" => cases.push(Case { doc: None, flags: vec![], class: "replay", vparts: None, vsource: "replay" }),
+                "vparts" if !cases.is_empty() => {
+                    cases.last_mut().unwrap().vparts = Some(t[1..].iter().map(|b| *b == "1").collect());
+                }
                 "cli" if t.len() == 8 && !cases.is_empty() => {
                     let bit = |i: usize| t[i] == "1";
                     let c = cases.last_mut().unwrap();
@@ -600,7 +729,15 @@ fn main() {
                 },
             };
             let flags: Vec<Flags> = if doc.is_none() { flags.into_iter().map(|f| Flags { read: false, ..f }).collect() } else { flags };
-            cases.push(Case { doc, flags, class });
+            cases.push(Case { doc, flags, class, vparts: None, vsource: "" });
+        }
+        anchor_cases(&mut rng, &mut cases);
+        let nc = args.budget(40, 400);
+        for _ in 0..nc {
+            let mut r = rng.fork();
+            if let Some(c) = composed_case(&mut r) {
+                cases.push(c);
+            }
         }
     }
 
